@@ -14,6 +14,13 @@ var (
 )
 
 func init() {
+	genql.RegisterFunction("boomt", func(q *genql.Query, cur genql.Map, fo *genql.FunctionOptions, args []any) (any, error) {
+		n := atomic.AddInt64(&boomCount, 1)
+		if n == atomic.LoadInt64(&boomFailAt) {
+			return nil, errors.New("boomt: injected fault")
+		}
+		return true, nil
+	})
 	genql.RegisterFunction("boom", func(q *genql.Query, cur genql.Map, fo *genql.FunctionOptions, args []any) (any, error) {
 		n := atomic.AddInt64(&boomCount, 1)
 		if n == atomic.LoadInt64(&boomFailAt) {
@@ -60,10 +67,12 @@ func FaultCheck(c Node, focus string) Verdict {
 			v.SQL = sql
 		}
 		pristine := FromTagged(c["doc"])
-		followSQL := st.Query(With(BaseQ(), "sel", []any{Item(Col("a"), "")}))
+		// the follow-up statement exposes whole rows of the input
+		// (under an alias: the rows come back as they are inside {x: row}, nothing is filtered out)
+		followSQL := st.Query(With(BaseQ(), "from", Table("x", "t")))
 		followWant := []any{}
 		for _, r := range pristine.(map[string]any)["t"].([]any) {
-			followWant = append(followWant, map[string]any{"a": r.(map[string]any)["a"]})
+			followWant = append(followWant, map[string]any{"x": r})
 		}
 		// fault-free
 		doc := FromTagged(c["doc"]).(map[string]any)
@@ -130,6 +139,14 @@ func FaultCheck(c Node, focus string) Verdict {
 			}
 			if focus == "C11" && !Equal(any(doc), pristine) {
 				return fail("docmut", sql, ksig, "after a failed and a successful run the caller's document is %s", Canon(any(doc)))
+			}
+			// ... and a different statement that returns the input rows as they are
+			doc3 := FromTagged(c["doc"]).(map[string]any)
+			runCounting(doc3, sql, k, opts)
+			star, _ := runCounting(doc3, followSQL, 0, opts)
+			v.Execs += 2
+			if focus == "C19" && (star.Err != nil || star.Panic != nil || !Equal(any(star.Rows), any(followWant))) {
+				return fail("followup", sql+" ; "+followSQL, ksig, "after invocation %d failed, the next query on the same input returns %s, expected the untouched rows %s", k, star.Describe(), Canon(any(followWant)))
 			}
 		}
 	}
